@@ -32,3 +32,8 @@ func VerifBCP47ToOtf(tag language.Tag) (string, string, error) {
 func VerifSubtableSizes(st Subtable) (declared, emitted int) {
 	return st.encodeLen(), len(st.encode())
 }
+
+// VerifSubtableLen returns the declared size of a subtable (without encoding it).
+func VerifSubtableLen(st Subtable) (declared int, ok bool) {
+	return st.encodeLen(), true
+}
